@@ -4,6 +4,7 @@ package app
 
 import (
 	"context"
+	"encoding/json"
 	"fmt"
 	"os"
 	"runtime"
@@ -57,6 +58,15 @@ func c20Gen(o *vk.Out) mgrIn {
 			in.Nodes[0].Down, in.Nodes[0].Health, in.Master, in.Maint, in.Switch = false, "", "h1", nil, nil
 		}
 	}
+	if r.Intn(8) == 0 {
+		// rolling upgrade: a lagging replica runs an older mysync whose health records carry no replication settings,
+		// and it has an entry in the optimisation registry
+		k := 1 + r.Intn(len(in.Nodes)-1)
+		in.Nodes[0].Down, in.Nodes[0].Health, in.Master, in.Maint, in.Switch = false, "", "h1", nil, nil
+		in.Nodes[k].Down, in.Nodes[k].NoChan, in.Nodes[k].Cascade, in.Nodes[k].Lag, in.Nodes[k].Health = false, false, false, 500, "oldformat"
+		in.OptReg = []string{fmt.Sprintf("h%d", k+1)}
+		in.Start = ""
+	}
 	in.Iter += 2
 	return in
 }
@@ -64,6 +74,22 @@ func c20Gen(o *vk.Out) mgrIn {
 func TestVerifC20(t *testing.T) {
 	o := vk.Open()
 	m := vk.NewMeta()
+	var rpr struct {
+		Repair *c10In `json:"repair"`
+	}
+	if vk.ReplayInput(&rpr) && rpr.Repair != nil {
+		var out c10Out
+		synctest.Test(t, func(t *testing.T) { out = c10Run(*rpr.Repair) })
+		for pi, p := range out.Passes {
+			if p.Panic != "" {
+				m.Violations = append(m.Violations, map[string]any{"clause": "no mysync iteration terminates the process", "input": map[string]any{"repair": *rpr.Repair},
+					"detail": fmt.Sprintf("repair pass %d: panic: %s", pi, p.Panic), "signature": map[string]any{"site": p.PanicSite}})
+			}
+		}
+		m.Evaluations = 1
+		o.WriteMeta("c20", m)
+		return
+	}
 	var rp mgrIn
 	if vk.ReplayInput(&rp) && len(rp.Nodes) > 0 {
 		var out mgrOut
@@ -101,18 +127,50 @@ func TestVerifC20(t *testing.T) {
 		if o.Thorough() {
 			nrep = 1500
 		}
+		check := func(in c10In, out c10Out) {
+			for pi, p := range out.Passes {
+				if p.Panic != "" {
+					m.Violations = append(m.Violations, map[string]any{"clause": "no mysync iteration terminates the process", "input": map[string]any{"repair": in},
+						"detail": fmt.Sprintf("repair pass %d: panic: %s", pi, p.Panic), "signature": map[string]any{"site": p.PanicSite}})
+				}
+			}
+		}
+		for _, raw := range vk.CorpusInputs() {
+			var w struct {
+				Repair *c10In `json:"repair"`
+			}
+			if json.Unmarshal(raw, &w) == nil && w.Repair != nil {
+				var out c10Out
+				synctest.Test(t, func(t *testing.T) { out = c10Run(*w.Repair) })
+				m.Evaluations++
+				m.Count("corpus_repair")
+				check(*w.Repair, out)
+			}
+		}
 		for i := 0; i < nrep; i++ {
 			in := c10Gen(o)
 			var out c10Out
 			synctest.Test(t, func(t *testing.T) { out = c10Run(in) })
 			m.Evaluations++
-			for pi, p := range out.Passes {
-				if p.Panic != "" {
-					site := p.PanicSite
-					m.Violations = append(m.Violations, map[string]any{"clause": "no mysync iteration terminates the process", "input": map[string]any{"repair": in},
-						"detail": fmt.Sprintf("repair pass %d: panic: %s", pi, p.Panic), "signature": map[string]any{"site": site}})
+			// a server whose channel disappears (RESET REPLICA ALL from outside) right before any one of the status reads of the pass
+			if i%5 == 0 || o.Thorough() {
+				seen := map[string]int{}
+				for _, p := range out.Passes {
+					for _, e := range p.Trans {
+						if e.Kind == "SShowReplica" && e.Host != "" {
+							fin := in
+							fin.Fault = &vk.Fault{Host: e.Host, Kind: e.Kind, Nth: seen[e.Host], Action: "unchannel"}
+							seen[e.Host]++
+							var fout c10Out
+							synctest.Test(t, func(t *testing.T) { fout = c10Run(fin) })
+							m.Evaluations++
+							m.Count("status_read_after_channel_removed")
+							check(fin, fout)
+						}
+					}
 				}
 			}
+			check(in, out)
 		}
 	}
 	// leaks: many iterations in every state must not accumulate goroutines or connections
